@@ -4,6 +4,8 @@ import (
 	"encoding/json"
 	"os"
 
+	"verif/harness/gen/regp"
+	rc "verif/harness/refcodec"
 	"verif/harness/stat"
 )
 
@@ -24,4 +26,13 @@ func replayCheck() string {
 		return ""
 	}
 	return rc.Check
+}
+
+// regSchemaJ is the generated programs' model in its JSON form (enums with their members).
+func regSchemaJ() *rc.SchemaJ {
+	var sj rc.SchemaJ
+	if err := json.Unmarshal([]byte(regp.SchemaJSON), &sj); err != nil {
+		panic(err)
+	}
+	return &sj
 }
